@@ -36,7 +36,8 @@ Publish(d, da, o, dv) ==
 CfgOf(e) ==
   [place |-> [c \in Checks |-> ToSet(e.place[c])],
    verd  |-> [c \in Checks |-> [s \in Stages |-> e.verd[c][s]]],
-   only1 |-> ToSet(e.only1), route |-> e.route, path |-> e.path, dmarc |-> e.dmarc,
+   only1 |-> ToSet(e.only1), route |-> e.route, dupof |-> e.dupof, path |-> e.path, dmarc |-> e.dmarc,
+   dmvia |-> e.dmvia, early |-> ToSet(e.early), everd |-> ToSet(e.everd), eon |-> e.eon,
    kind |-> e.kind, mod |-> e.mod, mfail |-> ToSet(e.mfail), from |-> "addr", nafin |-> e.nafin, nn |-> 0, cells |-> {}, fixed |-> TRUE]
 
 TInit ==
@@ -48,9 +49,10 @@ TReset ==
   /\ IsEv("Cfg")
   /\ LET c == CfgOf(Ev) IN
        /\ cfg' = c
-       /\ drv' = [ph |-> IF c.kind = "remote" THEN "remote" ELSE "start", i |-> 1, acc |-> {}, fin |-> ""]
+       /\ drv' = [ph |-> IF c.kind = "remote" THEN "remote" ELSE IF c.eon THEN "early" ELSE "start",
+                  i |-> 1, acc |-> {}, fin |-> ""]
        /\ metaQ' = (c.kind = "remote")
-  /\ k' = [reg |-> {}, seenR |-> [x \in Checks |-> {}], checked |-> <<>>, mq |-> FALSE, bodySeen |-> {}]
+  /\ k' = [reg |-> {}, seenR |-> [x \in Checks |-> {}], checked |-> <<>>, mq |-> FALSE, bodySeen |-> {}, rejd |-> {}]
   /\ used' = {}
   /\ tg' = [t \in Targets |-> "none"]
   /\ run' = Idle
@@ -59,8 +61,11 @@ TReset ==
   /\ hist' = <<>>
   /\ l' = l + 1 /\ drift' = FALSE /\ driftAt' = 0 /\ tno' = Ev.t
 
-C_Cmd  == IsEv("Cmd") /\ run.st = "idle" /\ drv.ph \in {"start", "rcpt", "body", "fin"}
+C_Cmd  == IsEv("Cmd") /\ run.st = "idle" /\ drv.ph \in {"early", "start", "rcpt", "body", "fin"}
           /\ NextOp = Ev.op /\ NextR = Ev.r /\ Cmd
+C_ECall == /\ IsEv("CheckCall") /\ Ev.stage = "early" /\ run.st = "egrp" /\ Ev.c \in run.pend
+           /\ Ev.v = (IF Ev.c \in cfg.everd THEN "reject" ELSE "none") /\ Ev.cmd = obs.n
+           /\ ECallDone(Ev.c)
 C_Call == /\ IsEv("CheckCall") /\ run.st = "grp" /\ Ev.c \in run.pend
           /\ Head(run.items).stage = Ev.stage /\ Head(run.items).arg = Ev.arg
           /\ VerdictOf(cfg, Ev.c, Ev.stage, Ev.arg) = Ev.v /\ Ev.cmd = obs.n
@@ -80,7 +85,7 @@ C_Rem  == /\ IsEv("TgtCall") /\ cfg.kind = "remote" /\ Ev.tgt = "remote" /\ Ev.q
 C_Ret  == IsEv("Ret") /\ run.st = "ret" /\ run.op = Ev.op /\ run.r = Ev.r /\ run.res = Ev.res /\ Ret
 C_End  == IsEv("End") /\ End
 
-Conform == C_Cmd \/ C_Call \/ C_Mod \/ C_Tgt \/ C_Rel \/ C_Rem \/ C_Ret \/ C_End
+Conform == C_Cmd \/ C_ECall \/ C_Call \/ C_Mod \/ C_Tgt \/ C_Rel \/ C_Rem \/ C_Ret \/ C_End
 
 C_Step ==
   /\ ~drift
